@@ -217,7 +217,9 @@ class Case:
                 for i, j in list(dpa_at.items()):
                     # once the DPA has arrived (and nothing is left to flush) the connection is closed,
                     # not kept until the wait timeout
-                    if it >= j + 4:
+                    # (the I/O loop serves one "wants attention" notice per iteration, and every queued message of every
+                    # connection raises one: the bound grows with what the other connections have under way)
+                    if it >= j + 4 + 8 * len(self.sp):
                         if not self.sp[i].node_sock.closed and h.now - t0 < spec["wait_timeout"] - 1:
                             self.witness("shutdown.connection_not_closed_after_dpa", {"conn": i, "iterations": it - j})
                         del dpa_at[i]
